@@ -96,6 +96,19 @@ func init() {
 		return Value{T: r}
 	}
 	externEffects["bytes.Index"] = effNone
+	for _, nm := range []string{"Intn", "Int31n", "Int63n"} {
+		nm := nm
+		externModels["(*math/rand.Rand)."+nm] = func(f *Frame, instr ssa.Instruction, c *ssa.CallCommon, args []Value, rt types.Type) Value {
+			e := f.e
+			n := args[1].T
+			w := n.Sort.bvWidth()
+			f.check("callee-requires", instr, bvCmp("bvsgt", n, bvConst(0, w)), nm+":n>0")
+			r := e.havoc(f.name("rnd"), n.Sort)
+			e.assume(and(bvCmp("bvsle", bvConst(0, w), r), bvCmp("bvslt", r, n)))
+			return Value{T: r}
+		}
+		externEffects["(*math/rand.Rand)."+nm] = effNone
+	}
 	externModels["reflect.DeepEqual"] = func(f *Frame, instr ssa.Instruction, c *ssa.CallCommon, args []Value, rt types.Type) Value {
 		e := f.e
 		r := e.havoc(f.name("deq"), SBool)
